@@ -114,6 +114,15 @@ CHECKS["C18"] = dict(
     note="NOT decided: 'k results whenever k are reachable' (recorded as a probe only), exact-search optimality, SIMD-vs-scalar agreement and quantiser error bounds (pure functions of their inputs).",
 )
 
+CHECKS["C10"] = dict(
+    engine="TWIN",
+    technique="deterministic simulation of histories on twin databases in lock-step: data changes, index creation/removal and repeated query texts (two sessions sharing the plan cache) are applied to a database with indexes/cache/factorized execution and to a twin with none of them; row multisets compared after every query, plus brute force over a model for the unambiguous templates",
+    category="exploration",
+    text="Decides the history-dependent half of the property (plan cached before the data, the statistics or the index set changed; index created or dropped between executions of one query text; cache shared across sessions; spacing variants of one text) over a fixed template family (8k quick / 500k thorough histories).",
+    design_ref="DESIGN.md §3 C10",
+    note="NOT decided: 'for all queries and graphs' as a universal statement about the planner (pure function of graph, query, configuration). Cache eviction is not reached (capacity 1000).",
+)
+
 NOT_APPLICABLE = {
     "C08": "pure function of (graph, query text): no schedule, clock, I/O, fault or shared state in the statement or its quantifier; differential/reference-interpreter testing is the fitting family, not simulation",
     "C09": "pure function of (graph, statistics state, query, optimizer switches); stale statistics are an input, not a schedule",
@@ -145,6 +154,7 @@ manifest = {
         {"name": "CODEC", "path": "sim/src/eng_codec.rs", "serves_properties": ["C15"], "kind_free_text": "history simulator over PropertyStorage and ChunkedAdjacency with map models"},
         {"name": "SNAP", "path": "sim/src/eng_snap.rs", "serves_properties": ["C07"], "kind_free_text": "copy routes over history-built graphs; byte faults on the snapshot blob"},
         {"name": "VEC", "path": "sim/src/eng_vec.rs", "serves_properties": ["C18"], "kind_free_text": "history simulator over HnswIndex with an id->vector model"},
+        {"name": "TWIN", "path": "sim/src/eng_twin.rs", "serves_properties": ["C10"], "kind_free_text": "twin-database lock-step history simulator (indexes/cache/factorized vs none)"},
         {"name": "SCHED", "path": "sim/src/eng_sched.rs", "serves_properties": ["C20", "C03", "C13"], "kind_free_text": "shuttle-scheduled simulated threads over the real stores/managers via the parking_lot lock seam (shims/parking_lot) and hooked atomics"},
         {"name": "DISK", "path": "sim/src/eng_disk.rs", "serves_properties": ["C05", "C06"], "kind_free_text": "persistent GrafeoDB over a tapped tmpfs directory + simulated clock; crash images computed from the disk-event log"},
     ],
